@@ -257,7 +257,8 @@ async def e2e(net, hyg, plan):
         entries = {}
         names = []
         for i in range(n):
-            name = rng.choice(["f", "data", "x y", "a.b", "UP", "deep"]) + str(i)
+            name = rng.choice(["f", "data", "x y", "a.b", "UP", "deep", "notes; final", "a;b", "k=v; ", "size=1;type=dir; ", " lead", "a -> b",
+                               "Jan 01  2020 ", "12:34 ", "<DIR> ", "1,024 "]) + str(i)
             typ = rng.choice(["file", "file", "dir"])
             size = rng.choice([0, 1, 511, 4096, 2 ** 31, 2 ** 40, rng.randrange(10 ** 9)]) if typ == "file" else 0
             off = rng.choice([0, 59, 3600, 86400 * 3, H - 86400 * 2, H + 86400 * 2, 86400 * 400, 86400 * 3000, -3600, -86400 * 30,
